@@ -80,7 +80,7 @@ Rec ==
   /\ born[Line.t] > 0                                         \* only a created thread records
   /\ Line.t = cur \/ cnt[Line.t] = 0                          \* one thread's lines are contiguous (else: rejected, not trusted)
   /\ IF Line.k = "E" THEN rdepth[Line.t] > 0 ELSE Line.name # ""
-  /\ Line.val >= 0
+  /\ IF Line.k = "C" THEN Line.val # NoVal ELSE Line.val = NoVal
   /\ cur' = Line.t
   /\ start' = IF cnt[Line.t] = 0 THEN [start EXCEPT ![Line.t] = l] ELSE start
   /\ cnt' = [cnt EXCEPT ![Line.t] = @ + 1]
